@@ -79,6 +79,12 @@ def gen_history(rng, nops, ctx, errs=True, small=False):
                 ctx.count("framing.send.invalid_size")
             ops.append("S %s %s" % (hexs(m), rand_sans(rng, len(m) + 4, errs)))
             ctx.count("framing.send")
+            if rng.chance(1, 10):
+                # a claimed length beyond the maximum, up to and beyond the 32- and 63-bit boundaries (size_t is 64 bits wide)
+                big = rng.choice([65536, 70000, 2 ** 31, 2 ** 32 - 1, 2 ** 32, 2 ** 32 + 1, 2 ** 32 + 7, 2 ** 32 + 65535, 2 ** 32 + 65536,
+                                  2 ** 33 + 5, 2 ** 48 + 100, 2 ** 63 + 1, 2 ** 64 - 1])
+                ops.append("SL %d %s" % (big, rand_sans(rng, 8, errs)))
+                ctx.count("framing.send.huge_length")
         elif r < 45:
             cap = rng.choice([0, 1, 2, 3, 5, 100, 65535, 70000])
             ops.append("R %d %s" % (cap, rand_sans(rng, 10, errs) if rng.chance(1, 3) else "-"))
